@@ -419,6 +419,47 @@ def rule_store(u, rep):
         rep.count("store_checked")
 
 
+def rule_single_pass(u, rep, rule="SINGLE-PASS"):
+    """Every entry point of the Serialize trait (serialize, serialize_with_schema, serialize_on_field_write, store)
+    traverses self exactly once on every successful path: one call of another entry point with self, or one write
+    of self to the backend. A value whose serialization is not repeatable (an iterator wrapper is drained by its
+    first traversal) is otherwise written from an exhausted state by the second pass."""
+    n = 0
+    for b in u.bodies.values():
+        if b.d.get("krate") != "epserde" or b.thir is None or b.kind not in ("Fn", "AssocFn"):
+            continue
+        f = b.crate.files[b.sp[0]] if b.sp else ""
+        if "ser/mod.rs" not in f or b.d.get("name") not in ("store", "serialize", "serialize_with_schema", "serialize_on_field_write"):
+            continue
+        if not any(p.get("self") for p in b.thir["params"]):
+            continue
+        try:
+            ip, paths = run_explicit(u, b, [("self",)] + [None] * (len(b.thir["params"]) - 1))
+        except (interp.Unsupported, RecursionError):
+            continue
+        for p in paths:
+            if outcome_of(u, p)[0] != "ok":
+                continue
+            n += 1
+            trav = 0
+            for e in p.events:
+                if e[0] == "Call" and e[1] == "epserde" and e[2] in ("store", "serialize", "serialize_with_schema", "serialize_on_field_write", "_serialize_inner") and e[6] and e[6][0] == ("self",):
+                    trav += 1
+                if e[0] == "W" and e[2] == "F" and len(e) > 4 and e[4] == ("self",):
+                    trav += 1
+            ok = trav == 1
+            rep.oblige(ok)
+            if not ok:
+                rep.add(rule, short_name(b), "`%s` traverses self %d times on a successful path: a value whose serialization is not repeatable (SerIter drains its iterator) is written from an exhausted state, and its stream is no longer that of the vector" % (b.n, trav), b.loc())
+                break
+    rep.count("serialize_entry_paths", n)
+    return n
+
+
+def short_name(b):
+    return (b.n or "").split("::")[-1]
+
+
 # ---------------------------------------------------------------------- C13
 def rule_err_to_ok(u, rep, scope_files, crate="epserde", errs=None, exclude_fn=None):
     """No path on which a callee's Err is observed (match / if let / is_err) returns Ok.
